@@ -8,6 +8,7 @@
 #include <cstdio>
 #include <cstring>
 #include <functional>
+#include <initializer_list>
 #include <iostream>
 #include <limits>
 #include <patch/applier.h>
@@ -100,13 +101,22 @@ static std::string guess_filepath(const Patch& patch, bool reverse_patch)
     if (patch.index_file_path != "/dev/null" && filesystem::exists(patch.index_file_path))
         return patch.index_file_path;
 
-    if (patch.operation == Operation::Add)
-        return patch.new_file_path;
+    // A file which is created need not exist. Neither does one which is removed: reversing that is creating
+    // it again, and a file which is not there (any more) is what is left by applying the patch.
+    // NOTE: /dev/null stands for 'no file' and is never the file to patch, and a name may also be left out.
+    auto first_name_of = [](std::initializer_list<const std::string*> names) -> std::string {
+        for (const auto* name : names) {
+            if (!name->empty() && *name != "/dev/null")
+                return *name;
+        }
+        return {};
+    };
 
-    // Reversing the removal of a file is creating it again. And a file which is to be removed but is not
-    // there (any more) is still the file the patch is about: that is what is left by applying the patch.
+    if (patch.operation == Operation::Add)
+        return first_name_of({ &patch.new_file_path, &patch.old_file_path, &patch.index_file_path });
+
     if (patch.operation == Operation::Delete)
-        return patch.old_file_path;
+        return first_name_of({ &patch.old_file_path, &patch.new_file_path, &patch.index_file_path });
 
     return {};
 }
